@@ -309,6 +309,15 @@ class Serializable(eqx.Module):
         Returns:
             The deserialized model.
         """
-        return eqx.tree_deserialise_leaves(
-            path, eqx.filter_eval_shape(cls, *args, **kwargs)
-        )
+        like = eqx.filter_eval_shape(cls, *args, **kwargs)
+        path = Path(path)
+        if path.suffix == "":
+            path = path.with_suffix(".eqx")
+        with open(path, "rb") as file:
+            model = eqx.tree_deserialise_leaves(file, like)
+            if file.read(1):
+                raise ValueError(
+                    f"{path} holds more parameters than {cls.__name__} built with "
+                    "these arguments; refusing to return a partially loaded model."
+                )
+        return model
